@@ -1,11 +1,13 @@
 import Driver.Util
 import Driver.C05
+import Driver.Kernel
 open Lean
 
 namespace Driver
 
 def dispatch (op : String) (j : Json) : Except String Json :=
   if op.startsWith "c05." then C05.handle op j
+  else if op.startsWith "kernel." then Kernel.handle op j
   else throw s!"unknown op {op}"
 
 def handleLine (line : String) : String :=
